@@ -41,3 +41,85 @@ for srv in ('none', 'ref:Server'):
     key = '%s::BundleNetAddr.__exit__#%s' % (F, 'server' if srv != 'none' else 'noserver')
     REGISTRY[key] = REGISTRY.pop('%s::BundleNetAddr.__exit__' % F)
     REGISTRY[key].key = key
+
+
+# ---- while bound: everything is collected, nothing is sent ---------------------------------------------
+# send_msg / send_bundle / send_clumped_bundles of a BundleNetAddr only append to the collected bundle
+# (the messages of a bundle are taken over, its time is dropped); _send_last_bundle sends exactly what
+# was collected after the last sync, with the server's latency, as ONE (clumped) bundle - or nothing
+# when nothing was collected; __enter__ installs the collecting address.
+from vf.pyvc import values as VV
+COLLECTED = z3.Int('collected.len')
+
+
+def bundle_kind(eng, name):
+    return V('seq', extra={'len': COLLECTED, 'facts': [COLLECTED >= 0], 'collected': True,
+                           'get': (lambda eng_, i, st_: V('any', z3.Select(z3.Array('collected.items', z3.IntSort(), VV.Any), i)))})
+
+
+def b_getattr(eng, obj, name, st, node):
+    if obj.k == 'seq' and obj.extra.get('collected') and name in ('append', 'extend'):
+        def grow(eng, args, kwargs, st, node, _n=name):
+            st.trace.append((_n, args[0]))
+            return [(st, NONE)]
+        return [(st, V('func', py=('spec', grow)))]
+    if obj.k == 'obj' and obj.oid == 'self._save_addr' and name in ('send_clumped_bundles', 'send_bundle', 'send_msg'):
+        def snd(eng, args, kwargs, st, node, _n=name):
+            st.trace.append(('real-send', _n, tuple(args)))
+            return [(st, NONE)]
+        return [(st, V('func', py=('spec', snd)))]
+    return None
+
+
+def args_kind(eng, name):
+    return vtuple([V('any', z3.Const('arg0', VV.Any)), V('any', z3.Const('arg1', VV.Any))])
+
+
+def collect_post(method):
+    def post(c):
+        ev = [e for e in c.trace if e[0] in ('append', 'extend', 'real-send')]
+        if len(ev) != 1 or ev[0][0] != method:
+            return z3.BoolVal(False)
+        v = ev[0][1]
+        ok = v.k == 'list' and v.items is not None and len(v.items) == 2 and \
+            all(x.k == 'any' and str(x.z) == 'arg%d' % j for j, x in enumerate(v.items))
+        return z3.BoolVal(bool(ok))          # a list of exactly the given items, collected once, nothing sent
+    return post
+
+
+BF = {'BundleNetAddr': {'_bundle': bundle_kind, '_save_addr': 'obj', '_send': 'bool', '_last_sync': 'int',
+                        '_server': 'ref:Server'},
+      'Server': {'_addr': 'obj', 'latency': 'any'}}
+
+contract(F, 'BundleNetAddr.send_msg', props=('C17',), params={'self': 'self', 'args': args_kind},
+         ensures=[('collected-as-one-message-nothing-sent', collect_post('append'))], modifies=[],
+         fields=BF, hooks={'getattr': b_getattr}, class_modules={'BundleNetAddr': F}, native=False)
+for meth in ('send_bundle', 'send_clumped_bundles'):
+    contract(F, 'BundleNetAddr.' + meth, props=('C17',),
+             params={'self': 'self', 'time': 'any', 'elements': args_kind},
+             ensures=[('its-elements-collected-time-dropped-nothing-sent', collect_post('extend'))], modifies=[],
+             fields=BF, hooks={'getattr': b_getattr}, class_modules={'BundleNetAddr': F}, native=False)
+
+
+def last_post(c):
+    ev = [e for e in c.trace if e[0] in ('append', 'extend', 'real-send')]
+    s = c.pre.self
+    tail_len = z3.If(COLLECTED - (s._last_sync + 1) > 0, COLLECTED - (s._last_sync + 1), 0)
+    if not ev:
+        return tail_len == 0                                              # nothing collected since the last sync
+    if len(ev) != 1 or ev[0][0] != 'real-send' or ev[0][1] != 'send_clumped_bundles':
+        return z3.BoolVal(False)
+    a = ev[0][2]
+    if len(a) != 2 or a[1].k != 'star' or a[1].extra['seq'].k != 'seq':
+        return z3.BoolVal(False)
+    sent_seq = a[1].extra['seq']
+    return z3.And(tail_len > 0, sent_seq.extra['len'] == tail_len,          # exactly the tail, as the elements
+                  z3.BoolVal(a[0].k == 'any' and str(a[0].z) == 'self._server.latency'))
+
+
+contract(F, 'BundleNetAddr._send_last_bundle', props=('C17',), params={'self': 'self'},
+         requires=lambda c: c.pre.self._last_sync >= -1,
+         ensures=[('what-was-collected-since-the-last-sync-goes-out-once-with-the-server-latency', last_post)],
+         modifies=[], fields=BF, hooks={'getattr': b_getattr}, class_modules={'BundleNetAddr': F}, native=False,
+         opts={'star_symbolic': True},
+         note='the case with a server (bind() always has one); the elements passed are the tail slice')
